@@ -18,6 +18,7 @@ RULE = (
     "pairs and single source; symmetric, 0 on the diagonal, inf exactly across components); clustering_coefficient vs "
     "nx.clustering; to_graph; the s-line graph for s in {1,2,3} x weights in {None, absolute, normalized}; "
     "to_bipartite_graph (directed too) through its index maps; the encapsulation DAG for all / immediate / empirical. "
+    "Every case is evaluated twice around an in-place edit of the same objects; one fixed network with 14-node hyperedges is added to every run. "
     "non-trivial = (>= 2 components or a nested pair of edges) and >= 4 nodes"
 )
 BUDGET = {"quick": 3200, "thorough": 90000}
